@@ -255,7 +255,7 @@ macro_rules! bk {
     };
 }
 
-// @vp name=c20_nd_access_2x3 prop=C20 tier=quick t=480 features=backends fns=ndarray::get,get_row,get_row_as_vec,copy_row_as_vec,get_col_as_vec,copy_col_as_vec size=2x3 dom=any-f64-bits
+// @vp name=c20_nd_access_2x3 prop=C20 tier=quick mem=30 t=480 features=backends fns=ndarray::get,get_row,get_row_as_vec,copy_row_as_vec,get_col_as_vec,copy_col_as_vec size=2x3 dom=any-f64-bits
 bk!(c20_nd_access_2x3, 9, {
     let a: [f64; 6] = kani::any();
     structural::<Array2<f64>, 2, 3, 6, 0>(nd(2, 3, &a), &a);
@@ -339,7 +339,7 @@ bk!(c20_nd_means_argmax_2x3, 9, {
     let (bi, b) = latarr::<6>(-4, 4);
     reductions::<Array2<f64>, 2, 3, 6, 1>(nd(2, 3, &a), nd(2, 3, &b), &ai, &bi);
 });
-// @vp name=c20_na_slice_take_2x3 prop=C20 tier=quick t=480 features=backends fns=nalgebra::slice,take size=2x3 dom=any-f64-bits
+// @vp name=c20_na_slice_take_2x3 prop=C20 tier=quick mem=30 t=480 features=backends fns=nalgebra::slice,take size=2x3 dom=any-f64-bits
 bk!(c20_na_slice_take_2x3, 9, {
     let a: [f64; 6] = kani::any();
     let b: [f64; 6] = kani::any();
@@ -385,7 +385,7 @@ bk!(c20_nd_reduce_1x2, 6, {
 });
 
 // nalgebra matmul (ndarray's goes through inline assembly in `matrixmultiply` and cannot be translated)
-// @vp name=c20_na_matmul_2x3_3x2 prop=C20 tier=quick t=480 features=backends fns=nalgebra::matmul size=2x3*3x2 dom=lattice(-3..3),f64
+// @vp name=c20_na_matmul_2x3_3x2 prop=C20 tier=quick mem=30 t=480 features=backends fns=nalgebra::matmul size=2x3*3x2 dom=lattice(-3..3),f64
 bk!(c20_na_matmul_2x3_3x2, 9, {
     let (ai, a) = latarr::<6>(-3, 3);
     let (bi, b) = latarr::<6>(-3, 3);
